@@ -49,6 +49,14 @@ CLAIMED = {
              ">= 0) the osu!/catch/mania machines equal a plain list iterator (nth exhausts and returns None past the end, len = "
              "remaining, None forever after exhaustion). Taiko: finding F6 (refutation lemmas), positive statement unproved (partial).",
         tech="Coq simulation proof over arbitrary op sequences + model/impl correspondence + reference-iterator differential"),
+    "C16": dict(
+        text="Coq theorems: for every reachable compact strain vector of non-negative peaks the internally computed "
+             "difficulty value equals the documented re-aggregation of the exported vector (and the flashlight sum likewise); "
+             "the number of exported peaks is independent of the skill (any strain functions). Tied to the code by recomputing "
+             "catch/mania stars, the osu flashlight rating and the section counts INSIDE Coq from the real strains() output and "
+             "comparing with the real attributes (bit-exact up to the sign of zero). Finite/non-negative peaks: direct scan. "
+             "Section-loop termination within the computed fuel is checked per trace, not proved (partial).",
+        tech="Coq proofs over aggregation/section models + in-Coq recomputation from real strain output"),
 }
 
 
